@@ -79,14 +79,23 @@ Example good_world_refusals :
 Proof. vm_compute. reflexivity. Qed.
 
 (* ------------------------------------------------------------------ (2) refutations *)
-(* R1: a layer whose layerconfig does not parse is never probed: umount -all reports success
-   and leaves its mounts; umount of that layer says "not mounted" *)
+(* R1 (round 1; REPAIRED in round 2: ProbeAllLayerstate now collects users and mounts for
+   error-state layers too).  A layer whose layerconfig does not parse was never probed: umount
+   -all reported success and left its mounts; umount of that layer said "not mounted".  Now both
+   predicates hold on this world and the layer is unmounted. *)
 Definition w_err : wobs :=
   MkWO (base_fs ++ layer_fs "e" (bs "bogus" ++ [nl]))
        (MkKS [rootline; line "21" "20" "/b/layers/e/build/proc" "proc" "proc" rw] 40 5).
-Example C03_refuted_error_layer_all : c03 cfg0 w_err (CUmount [] true) [] = false.
+Example error_layer_all_now_holds : c03 cfg0 w_err (CUmount [] true) [] && c04 cfg0 w_err (CUmount [] true) [] = true.
 Proof. vm_compute. reflexivity. Qed.
-Example C04_refuted_error_layer_umount : c04 cfg0 w_err (CUmount (bs "e") false) [] = false.
+Example error_layer_all_unmounts :
+  let v := view_of_model cfg0 w_err e0 (CUmount [] true) [] in
+  rclass_beq (v_res v) ROk && ktab_beq (ks_tab (wo_ks (v_after v))) [rootline] = true.
+Proof. vm_compute. reflexivity. Qed.
+Example error_layer_umount_now_holds :
+  let v := view_of_model cfg0 w_err e0 (CUmount (bs "e") false) [] in
+  c03 cfg0 w_err (CUmount (bs "e") false) [] && c04 cfg0 w_err (CUmount (bs "e") false) []
+  && rclass_beq (v_res v) ROk && ktab_beq (ks_tab (wo_ks (v_after v))) [rootline] = true.
 Proof. vm_compute. reflexivity. Qed.
 
 (* R2: an overlay over b mounted (by hand) on the build root of the unrelated layer a, which is
@@ -99,25 +108,29 @@ Definition w_ovl : wobs :=
 Example C03_refuted_misplaced_overlay : c03 cfg0 w_ovl (CUmount [] true) [] = false.
 Proof. vm_compute. reflexivity. Qed.
 
-(* R3: the skeleton file of the base directory is missing: every command fails at once, also
-   umount of a mounted idle layer *)
+(* R3 (round 1; the predicates now carry the precondition base_set_up && check_inheritance).
+   The skeleton file of the base directory is missing: every command fails at once, also umount
+   of a mounted idle layer -- and changes nothing, which is what the predicates now ask. *)
 Definition w_nobase : wobs :=
   MkWO ([ (bs "/b", Dir); (bs "/b/layers", Dir); (bs "/b/export", Dir) ] ++ layer_fs "a" [])
        (MkKS [rootline; line "21" "20" "/b/layers/a/build/proc" "proc" "proc" rw] 40 5).
-Example C03_refuted_base_not_set_up : c03 cfg0 w_nobase (CUmount [] true) [] = false.
-Proof. vm_compute. reflexivity. Qed.
-Example C04_refuted_base_not_set_up : c04 cfg0 w_nobase (CUmount (bs "a") false) [] = false.
+Example base_not_set_up_now_holds :
+  let v := view_of_model cfg0 w_nobase e0 (CUmount [] true) [] in
+  c03 cfg0 w_nobase (CUmount [] true) [] && c04 cfg0 w_nobase (CUmount (bs "a") false) []
+  && rclass_beq (v_res v) RFail && unchanged w_nobase v = true.
 Proof. vm_compute. reflexivity. Qed.
 
-(* R4: rename / rebase of a layer whose direct child is in error state and has a process in
-   its build root: the child is not classified, the command goes ahead *)
+(* R4 (round 1; REPAIRED in round 2).  rename / rebase of a layer whose direct child is in error
+   state and has a process in its build root: the child was not classified and the command went
+   ahead; now the child is busy and both commands are refused. *)
 Definition w_errchild : wobs :=
   MkWO (base_fs ++ layer_fs "a" [] ++ layer_fs "k" (bs "base a" ++ [nl] ++ bs "bogus" ++ [nl]))
        (MkKS [rootline] 40 5).
 Definition um_errchild : users_map := [(bs "k", [MkU false (bs "build/x")])].
-Example C04_refuted_error_child_rename : c04 cfg0 w_errchild (CRename (bs "a") (bs "z")) um_errchild = false.
-Proof. vm_compute. reflexivity. Qed.
-Example C04_refuted_error_child_rebase : c04 cfg0 w_errchild (CRebase (bs "a") []) um_errchild = false.
+Example error_child_now_protected :
+  forallb (fun cmd => c04 cfg0 w_errchild cmd um_errchild
+                      && rclass_beq (v_res (view_of_model cfg0 w_errchild e0 cmd um_errchild)) RFail)
+          [CRename (bs "a") (bs "z"); CRebase (bs "a") []] = true.
 Proof. vm_compute. reflexivity. Qed.
 
 (* R5: the build root configured as "build/": SameDirectoryOrDescendant treats a user file
@@ -184,4 +197,9 @@ Example cfg_sane_sat : cfg_sane cfg0 = true.
 Proof. vm_compute. reflexivity. Qed.
 Example cfg_sane_excludes :
   map cfg_sane [mkcfg "build/"; mkcfg "../../.."; mkcfg "../shared"; mkcfg "overlayfs/x"] = [false; false; false; true].
+Proof. vm_compute. reflexivity. Qed.
+
+(* the numbering part of the kernel invariant (Proofs/KernelInvP.v) on the good world *)
+From LC Require Import Proofs.KernelInvP.
+Example numbered_sat : numbered (wo_ks good_world) = true.
 Proof. vm_compute. reflexivity. Qed.
